@@ -249,18 +249,29 @@ fn plant_record_lookalikes(r: &mut Rng, rec: &mut Vec<u8>) -> Vec<usize> {
     if total < 60 {
         return hot;
     }
+    // what is planted: the start of a handshake record, or a whole small record of another content type
+    // (ChangeCipherSpec, alert, the header of an application-data or heartbeat record)
+    let lookalike = |r: &mut Rng, short_len: bool| -> Vec<u8> {
+        let v = r.below(5) as u8;
+        match r.below(6) {
+            0 | 1 | 2 => vec![0x16, 0x03, v, if short_len { 0 } else { r.u8() }, if short_len { r.below(40) as u8 } else { r.u8() }],
+            3 => vec![0x14, 0x03, v, 0x00, 0x01, 0x01],
+            4 => vec![0x15, 0x03, v, 0x00, 0x02, *r.pick(&[1u8, 2]), *r.pick(&[0u8, 40, 70])],
+            _ => vec![*r.pick(&[0x17u8, 0x18]), 0x03, v, 0x00, r.below(64) as u8],
+        }
+    };
     // client random: record header (5) + handshake header (4) + version (2) = offset 11, 32 bytes
     if r.chance(2, 3) {
-        let k = 11 + r.usize_below(32 - 5);
-        let hdr = [0x16, 0x03, r.below(5) as u8, r.u8(), r.u8()];
-        rec[k..k + 5].copy_from_slice(&hdr);
+        let pat = lookalike(r, false);
+        let k = 11 + r.usize_below(32 - pat.len());
+        rec[k..k + pat.len()].copy_from_slice(&pat);
         hot.push(k);
     }
     // session id (if present): offset 44, 32 bytes
     if rec[43] == 32 && r.chance(1, 2) {
-        let k = 44 + r.usize_below(32 - 5);
-        let hdr = [0x16, 0x03, r.below(5) as u8, 0x00, r.below(40) as u8];
-        rec[k..k + 5].copy_from_slice(&hdr);
+        let pat = lookalike(r, true);
+        let k = if r.chance(1, 3) { 44 } else { 44 + r.usize_below(32 - pat.len()) };
+        rec[k..k + pat.len()].copy_from_slice(&pat);
         hot.push(k);
     }
     // padding extension: a trailing run of zeros; plant a whole small ClientHello record in it
